@@ -7,6 +7,17 @@ R16.2 restricted Chebyshev basis: the correction subtracted in the derivative ma
       subtracted in chebyshev(); the restricted functions vanish at the dropped end points; bulk derivative is n U_{n-1}
 R16.3 Gauss-Lobatto nodes and quadrature: node denominators == weight denominators per direction; end-point halving; sqrt(1-x^2)
 R16.4 axis algebra for every rank <= 4 and axis i: matrices land on (i, i+1), contraction removes the old axis, others untouched
+
+How the code is recognised (spelling independent): every analysed function is *evaluated* by `_PolyEx`, a term extractor
+specialised to one combination (direction, endpoints, basis) of the axis under consideration.  Tests on these three are decided,
+so exactly the statements of that combination are executed; locals, temporaries, extracted private helpers, guard clauses /
+if-elif chains and keyword arguments never appear in what the rules look at.  The rules read
+  * the arguments of the public calls  self.chebyshev(x, n, restriction), self.cardinal(x, n, direction), np.identity(k),
+    np.expand_dims(a, axes), np.sum(a, axis), self.derivMatrix(...), Polynomial(...), grid.getCompactCoordinates(ep, dir)
+  * returned terms and the final values of attributes
+and decode them algebraically (ARANGE(a, b) + k, SIZE(grid points), SETITEM(w, 0, w[0] / 2), ...).  Variables are identified by
+their role (argument position of a public call, loop target that indexes self.direction / self.basis / self.endpoints), never
+by name.
 """
 from __future__ import annotations
 
@@ -15,458 +26,1078 @@ import itertools
 
 import sympy as sp
 
-from ..core import AnchorMissing, Check, Undecided, calls_in, dotted, kwarg, own_nodes, src, walk_guarded
-from ..hydro import n
-from ..terms import Extractor, WHERE, is_zero
+from ..core import AnchorMissing, Check, Undecided, dotted, kwarg
+from ..terms import Extractor, Opaque, WHERE, _Ret
 
 LEVEL = "other"
 PO = "polynomial:Polynomial"
 M, N = sp.symbols("M N", positive=True, integer=True)
 DIRS = ("z", "pz", "pp")
+GRID_ATTR = {"z": "self.chiValues", "pz": "self.rzValues", "pp": "self.rpValues"}
+AXATTR = {"self.direction": "dir", "self.endpoints": "ep", "self.basis": "basis"}
+
+ARANGE, GRIDPTS, SPLICE, SIZE, SETITEM, SUB, GETITEM, SHAPE, TRANSPOSE, BC = (sp.Function(x) for x in (
+    "ARANGE", "GRIDPTS", "SPLICE", "SIZE", "SETITEM", "SUB", "getitem", "SHAPE", "np.transpose", "BC"))
+AXIS = sp.Symbol("AXIS__", integer=True, nonnegative=True)
+NP_SIG = {"expand_dims": ["a", "axis"], "sum": ["a", "axis"], "identity": ["n"], "eye": ["N"], "transpose": ["a"]}
+PKG_RECORD = {"chebyshev", "cardinal", "changeBasis", "derivMatrix", "Polynomial"}
 
 
-# ---------------------------------------------------------------- guard evaluation
-def _guard_value(t: ast.expr, c: dict):
-    """value of a guard test under the combination c = {dir, ep, basis}; None = unknown"""
-    s = n(t).replace('"', "'")
-    for pre in ("self.direction[i]", "direction"):
-        if s.startswith(pre + " == '"):
-            return c["dir"] == s.split("'")[1]
-        if s.startswith(pre + " in ["):
-            return c["dir"] in [x for x in s.split("'")[1::2]]
-    for pre in ("self.endpoints[i]", "endpoints"):
-        if s == pre:
-            return c["ep"]
-        if s == "not " + pre:
-            return not c["ep"]
-    if s.startswith("self.basis[i] == '"):
-        return c["basis"] == s.split("'")[1]
-    if s.startswith("restriction == '") and " and not endpoints" in s:
-        return None
-    if isinstance(t, ast.BoolOp) and isinstance(t.op, ast.And):
-        vals = [_guard_value(v, c) for v in t.values]
-        if any(v is False for v in vals):
-            return False
-        if all(v is True for v in vals):
-            return True
-        return None
-    return None
+class _Loop:
+    """outcome of a `break` / `continue`: ends the single symbolic iteration of the loop body"""
 
 
-def _applies(guards, c) -> bool:
-    for t, pol in guards:
-        if isinstance(t, (tuple, ast.ExceptHandler)):
-            continue
-        v = _guard_value(t, c)
+def _fn(t, f) -> bool:
+    return isinstance(t, sp.Basic) and getattr(t, "func", None) == f
+
+
+def _named(t, name: str) -> bool:
+    return isinstance(t, sp.core.function.AppliedUndef) and t.func.__name__ == name
+
+
+# ---------------------------------------------------------------- the evaluator
+class _PolyEx(Extractor):
+    """Term extraction of one Polynomial / Grid method for one combination c = {dir, ep, basis} of the axis that is worked on.
+
+    On top of terms.Extractor: string / None / boolean comparisons are decided; `self.direction[k]`, `self.endpoints[k]`,
+    `self.basis[k]` evaluate to the combination; loops execute their body once (the loop target that indexes those attributes is
+    the axis index: the symbol AXIS__ or the concrete integer `axis`); np.arange -> ARANGE(a, b) (a tuple of integers when the
+    bounds are integers); grid.getCompactCoordinates(ep, dir) -> GRIDPTS(ep, k); list / concatenate spellings of a padded array ->
+    python list with SPLICE(x) entries; x.size -> SIZE(x); a[k] = v -> SETITEM(a, k, v); non-trivial slices -> SUB(a, 'sl|lo:hi,..');
+    list.append is modelled; the public calls listed in the module docstring are recorded with their bound arguments.
+    Anything else that the extractor cannot express becomes a fresh symbol (the rules only accept what they can decode)."""
+
+    # the private methods of the pinned tree are analysed on their own; any *other* private function of the two modules is an extracted
+    # helper and is looked through (whatever its control flow: its tests on direction / endpoints / basis are decided here)
+    PINNED_PRIVATE = {"_findContraction", "_cardinalMatrix", "_chebyshevMatrix", "_cardinalDeriv", "_chebyshevDeriv", "_checkBasis", "_checkDirection",
+                      "_checkEndpoints", "_checkCoefficients", "_checkAxis", "_isBroadcastable", "_cacheCoordinates"}
+
+    def __init__(self, source, c=None, rank=None, axis=None):
+        def helper(name: str) -> bool:
+            mod, qual = name.split(":")
+            short = qual.split(".")[-1]
+            return mod in ("polynomial", "grid") and short.startswith("_") and not short.startswith("__") and short not in self.PINNED_PRIVATE
+
+        super().__init__(source, inline=helper)
+        self.c = c or {}
+        self.rank, self.axis = rank, axis
+        self.records: list = []      # (short name, [bound raw arguments])
+        self.asserts: list = []      # terms of executed assert tests
+        self.idx: set = set()        # index expressions used on self.direction / self.endpoints / self.basis
+        self.axis_names: set = set()  # loop targets playing the axis index
+        self._k = 0
+        self._sigs: dict = {}
+
+    # ---- small helpers
+    def fresh(self, what="havoc"):
+        self._k += 1
+        return sp.Symbol(f"{what}{self._k}__", real=True)
+
+    @staticmethod
+    def _num(v):
+        if v is sp.true or v is True:
+            return sp.Integer(1)
+        if v is sp.false or v is False:
+            return sp.Integer(0)
+        return v
+
+    @staticmethod
+    def _lit(v):
+        """('s', text) | ('n',) | ('b', bool) | ('q', [..]) for values whose comparison is decidable, else None"""
+        if isinstance(v, Opaque):
+            return ("s", v.text)
         if v is None:
-            continue
-        if v != pol:
+            return ("n",)
+        if v is sp.true or v is sp.false or isinstance(v, bool):
+            return ("b", bool(v))
+        if isinstance(v, sp.Basic) and v.is_number and v.is_real:
+            return ("i", sp.nsimplify(v))
+        if isinstance(v, (list, tuple)):
+            items = [_PolyEx._lit(x) for x in v]
+            return ("q", items) if all(i is not None and i[0] != "q" for i in items) else None
+        return None
+
+    def _combo(self, what):
+        v = self.c.get(what)
+        if what == "ep":
+            return None if v is None else (sp.true if v else sp.false)
+        return None if v is None else Opaque(v)
+
+    def sig(self, short, d=None, env=None):
+        """(parameter names without self, {name: default ast}) of the package callable `short` (`self.m` resolves in the current class)"""
+        mod, cls = (env or {}).get("__module__"), (env or {}).get("__class__")
+        key = (short, mod, cls) if d is not None and d.startswith("self.") and d.count(".") == 1 else (short, None, None)
+        if key not in self._sigs:
+            found = []
+            if key[1] and key[2]:
+                fi = self.source.method(f"{mod}:{cls}", short)
+                found = [fi.node] if fi is not None else []
+            else:
+                for m in self.source.modules.values():
+                    for q, fi in m.funcs.items():
+                        if q.split(".")[-1] == short and fi.parent is None:
+                            found.append(fi.node)
+                    if short in m.classes and "__init__" in m.classes[short].methods:
+                        found.append(m.classes[short].methods["__init__"].node)
+            r = None
+            if len(found) == 1:
+                a = found[0].args
+                names = [x.arg for x in a.args]
+                dfl = dict(zip(names[len(names) - len(a.defaults):], a.defaults))
+                if names and names[0] in ("self", "cls"):
+                    names = names[1:]
+                r = (names, dfl)
+            self._sigs[key] = r
+        return self._sigs[key]
+
+    def bind(self, call, names, dfl, env, depth):
+        """arguments of `call` in parameter order (keywords bound, constant defaults filled in); trailing missing ones dropped"""
+        out = []
+        for i, p in enumerate(names):
+            a = kwarg(call, p, i)
+            if a is None and p in dfl and isinstance(dfl[p], ast.Constant):
+                a = dfl[p]
+            if a is None:
+                break
+            out.append(self.expr(a, env, depth))
+        return out
+
+    # ---- statements
+    def stmt(self, st, env, guards, depth):
+        if isinstance(st, (ast.For, ast.AsyncFor, ast.While)):
+            env = dict(env)
+            self._rebind_closures(env)
+            if not isinstance(st, ast.While):
+                self._bind_loop(st, env, depth)
+            out = []
+            for e, g, o in self.block(st.body, env, guards, depth):
+                out.append((e, g, None if isinstance(o, _Loop) else o))
+            return out
+        if isinstance(st, (ast.Break, ast.Continue)):
+            return [(env, guards, _Loop())]
+        if isinstance(st, ast.Assert):
+            try:
+                self.asserts.append(self.expr(st.test, env, depth))
+            except Undecided:
+                pass
+            return [(env, guards, None)]
+        if isinstance(st, ast.Expr):
+            v = st.value
+            if (isinstance(v, ast.Call) and isinstance(v.func, ast.Attribute) and v.func.attr == "append" and isinstance(v.func.value, ast.Name)
+                    and isinstance(env.get(v.func.value.id), list) and len(v.args) == 1 and not v.keywords):
+                env = dict(env)
+                self._rebind_closures(env)
+                try:
+                    item = self.expr(v.args[0], env, depth)
+                except Undecided:
+                    item = self.fresh()
+                env[v.func.value.id] = list(env[v.func.value.id]) + [item]
+                return [(env, guards, None)]
+            try:
+                if isinstance(v, ast.Call) and self._effect_callee(v, env) is not None:
+                    return super().stmt(st, env, guards, depth)
+                self.expr(v, env, depth)
+            except Undecided:
+                pass
+            return [(env, guards, None)]
+        try:
+            return super().stmt(st, env, guards, depth)
+        except Undecided:
+            if isinstance(st, ast.Return):
+                return [(env, guards, _Ret(self.fresh()))]
+            env = dict(env)
+            self._rebind_closures(env)
+            tg = st.targets if isinstance(st, ast.Assign) else ([st.target] if isinstance(st, (ast.AnnAssign, ast.AugAssign)) else [])
+            for t in tg:
+                for x in ([t] if not isinstance(t, (ast.Tuple, ast.List)) else t.elts):
+                    while isinstance(x, (ast.Subscript, ast.Starred)):
+                        x = x.value
+                    d = dotted(x)
+                    if d is not None:
+                        env[d] = self.fresh()
+            return [(env, guards, None)]
+
+    def _bind_loop(self, st, env, depth):
+        tnames = [t.id for t in ast.walk(st.target) if isinstance(t, ast.Name)]
+        used = {x.slice.id for x in ast.walk(st) if isinstance(x, ast.Subscript) and dotted(x.value) in AXATTR and isinstance(x.slice, ast.Name)}
+        ax = [t for t in tnames if t in used]
+        bound: dict = {}        # targets drawing from a per-axis sequence: zip(self.basis, self.direction, ...) / enumerate(x.shape)
+        counters: list = []     # enumerate counters over per-axis sequences
+
+        def pair(tgt, it) -> bool:
+            """bind the loop target `tgt` to what it draws from `it`; True when `it` is a per-axis sequence"""
+            name = dotted(it.func) if isinstance(it, ast.Call) else None
+            if name == "enumerate" and len(it.args) == 1 and isinstance(tgt, ast.Tuple) and len(tgt.elts) == 2:
+                per_axis = pair(tgt.elts[1], it.args[0])
+                if per_axis and isinstance(tgt.elts[0], ast.Name):
+                    counters.append(tgt.elts[0].id)
+                return per_axis
+            if name == "zip" and isinstance(tgt, ast.Tuple) and len(tgt.elts) == len(it.args):
+                return any([pair(t_, a_) for t_, a_ in zip(tgt.elts, it.args)])
+            if name == "range" and len(it.args) == 1 and dotted(it.args[0]) == "self.rank" and isinstance(tgt, ast.Name):
+                counters.append(tgt.id)      # `for i in range(self.rank)`: the index over the axes
+                return True
+            if isinstance(tgt, ast.Name) and dotted(it) in AXATTR and self._combo(AXATTR[dotted(it)]) is not None:
+                bound[tgt.id] = self._combo(AXATTR[dotted(it)])
+                return True
+            if isinstance(tgt, ast.Name) and isinstance(it, ast.Attribute) and it.attr == "shape":
+                bound[tgt.id] = ("shape", it)
+                return True
             return False
-    return True
+
+        pair(st.target, st.iter)
+        if not ax:
+            ax = counters[:1]
+        self.axis_names.update(ax)
+        for t in tnames:
+            if len(ax) == 1 and t == ax[0]:
+                env[t] = sp.Integer(self.axis) if self.axis is not None else AXIS
+            else:
+                env[t] = self.fresh("elem")
+        for t, v in bound.items():
+            if isinstance(v, tuple):
+                # an element of <x>.shape is the length of the axis
+                try:
+                    env[t] = GETITEM(self.expr(v[1], env, depth), env[ax[0]] if len(ax) == 1 else AXIS)
+                except Undecided:
+                    pass
+            else:
+                env[t] = v
+
+    def comprehension(self, n, env, depth):
+        """a comprehension over a concrete tuple of integers (axis bookkeeping of the rank <= 4 enumeration) is evaluated"""
+        if len(n.generators) == 1 and not isinstance(n, ast.DictComp) and isinstance(n.generators[0].target, ast.Name):
+            g = n.generators[0]
+            try:
+                seq = self.expr(g.iter, env, depth)
+            except Undecided:
+                seq = None
+            if isinstance(seq, (tuple, list)) and all(isinstance(x, sp.Integer) for x in seq):
+                out = []
+                for x in seq:
+                    e2 = dict(env)
+                    e2[g.target.id] = x
+                    conds = [self.cond(c, e2, depth) for c in g.ifs]
+                    if not all(isinstance(c, bool) for c in conds):
+                        return super().comprehension(n, env, depth)
+                    if all(conds):
+                        out.append(self.expr(n.elt, e2, depth))
+                return out
+        return super().comprehension(n, env, depth)
+
+    def assign(self, target, v, env):
+        if isinstance(target, ast.Subscript):
+            d = dotted(target.value)
+            if d is not None:
+                idx = self._const_index(target.slice, env)
+                if isinstance(env.get(d), sp.Basic) and isinstance(v, sp.Basic) and idx is not None:
+                    env[d] = SETITEM(env[d], sp.Integer(idx), v)
+                elif not (isinstance(env.get(d), list) and idx is not None):
+                    env[d] = self.fresh()
+                else:
+                    super().assign(target, v, env)
+                return
+        super().assign(target, v, env)
+
+    # ---- expressions
+    def expr(self, n, env, depth=0):
+        if isinstance(n, ast.Attribute):
+            d, base = dotted(n), dotted(n.value)
+            if d is not None and d not in env and base is not None and base in env and base not in ("self", "cls", "np", "numpy"):
+                return self._attr(env[base], n.attr, n)
+            if d is None and n.attr in ("size", "shape", "T", "ndim"):
+                return self._attr(self.expr(n.value, env, depth), n.attr, n)
+        if isinstance(n, ast.BoolOp):
+            vals = [self.cond(v, env, depth) for v in n.values]
+            stop = isinstance(n.op, ast.Or)
+            if any(v is stop for v in vals):
+                return sp.true if stop else sp.false
+            if all(isinstance(v, bool) for v in vals):
+                return sp.false if stop else sp.true
+        return super().expr(n, env, depth)
+
+    def _attr(self, v, attr, node):
+        if attr == "real":
+            return v
+        if isinstance(v, (list, tuple)) and attr == "size" and all(isinstance(x, sp.Basic) for x in v):
+            return SIZE(sp.Tuple(*v))
+        if not isinstance(v, sp.Basic):
+            raise Undecided(f"attribute {attr} of a non-term")
+        if attr == "size":
+            return SIZE(v)
+        if attr == "shape":
+            return SHAPE(v)
+        if attr == "T":
+            return TRANSPOSE(v)
+        return sp.Function(f"attr_{attr}")(v)
+
+    def binop(self, op, a, b):
+        a, b = self._num(a), self._num(b)
+        try:
+            return super().binop(op, a, b)
+        except (TypeError, ValueError, AttributeError) as e:
+            raise Undecided(f"arithmetic: {e}")
+
+    def compare(self, n, env, depth):
+        if len(n.ops) == 1 and isinstance(n.ops[0], (ast.Eq, ast.NotEq, ast.In, ast.NotIn)):
+            try:
+                a, b = self._lit(self.expr(n.left, env, depth)), self._lit(self.expr(n.comparators[0], env, depth))
+            except Undecided:
+                a = b = None
+            if a is not None and b is not None:
+                op = n.ops[0]
+                if isinstance(op, (ast.Eq, ast.NotEq)) and a[0] != "q" and b[0] != "q":
+                    return sp.true if (a == b) == isinstance(op, ast.Eq) else sp.false
+                if isinstance(op, (ast.In, ast.NotIn)) and a[0] != "q" and b[0] == "q":
+                    return sp.true if (a in b[1]) == isinstance(op, ast.In) else sp.false
+        return super().compare(n, env, depth)
+
+    def subscript(self, n, env, depth):
+        d = dotted(n.value)
+        if d in AXATTR and d not in env and self._combo(AXATTR[d]) is not None:
+            self.idx.add(" ".join(ast.unparse(n.slice).split()))
+            return self._combo(AXATTR[d])
+        sl = n.slice
+        elts = list(sl.elts) if isinstance(sl, ast.Tuple) else [sl]
+        if all(self._is_bcast(e) for e in elts):
+            # pure broadcasting subscript: the value with its orientation, e.g. BC(x, 'bc|:,None') (dropped again where only the value matters)
+            v = self.expr(n.value, env, depth)
+            if not isinstance(v, sp.Basic) or all(isinstance(e, ast.Slice) for e in elts):
+                return v
+            pat = ",".join(":" if isinstance(e, ast.Slice) else ("..." if isinstance(e, ast.Constant) and e.value is Ellipsis else "None") for e in elts)
+            return BC(v, sp.Symbol("bc|" + pat))
+        if any(isinstance(e, ast.Slice) and (e.lower is not None or e.upper is not None or e.step is not None) for e in elts):
+            v = self.expr(n.value, env, depth)
+            if isinstance(v, sp.Basic):
+                while elts and self._is_bcast(elts[-1]) and isinstance(elts[-1], ast.Slice):
+                    elts.pop()          # trailing `:` entries select everything
+                parts = []
+                for e in elts:
+                    if isinstance(e, ast.Slice):
+                        parts.append(":".join("" if b is None else str(self._bound(b, env, depth)) for b in ((e.lower, e.upper) + ((e.step,) if e.step is not None else ()))))
+                    else:
+                        parts.append("None" if (isinstance(e, ast.Constant) and e.value is None) else str(self._bound(e, env, depth)))
+                return SUB(v, sp.Symbol("sl|" + ",".join(parts)))
+        return super().subscript(n, env, depth)
+
+    def _bound(self, e, env, depth):
+        try:
+            return self.expr(e, env, depth)
+        except Undecided:
+            return " ".join(ast.unparse(e).split())
+
+    def call(self, n, env, depth):
+        d = dotted(n.func)
+        if d is not None and d not in env:
+            parts = d.split(".")
+            short, isnp = parts[-1], parts[0] in ("np", "numpy")
+            if ((isnp and short == "arange") or d == "range") and not any(k.arg not in ("start", "stop") for k in n.keywords):
+                pos = [self.expr(a, env, depth) for a in n.args]
+                kw = {k.arg: self.expr(k.value, env, depth) for k in n.keywords}
+                lo = hi = None
+                if len(pos) == 1 and not kw:
+                    lo, hi = sp.Integer(0), pos[0]
+                elif len(pos) == 2 and not kw:
+                    lo, hi = pos
+                elif len(pos) == 1 and set(kw) == {"stop"}:
+                    lo, hi = pos[0], kw["stop"]
+                elif not pos and "stop" in kw:
+                    lo, hi = kw.get("start", sp.Integer(0)), kw["stop"]
+                if lo is not None:
+                    lo, hi = self._num(lo), self._num(hi)
+                    if isinstance(lo, sp.Integer) and isinstance(hi, sp.Integer):
+                        return tuple(sp.Integer(k) for k in range(int(lo), int(hi)))
+                    if isinstance(lo, sp.Basic) and isinstance(hi, sp.Basic):
+                        return ARANGE(lo, hi)
+            if short == "getCompactCoordinates" and len(parts) > 1 and self.sig(short):
+                names, dfl = self.sig(short)
+                a = self.bind(n, names, dfl, env, depth)
+                self.records.append((short, a))
+                if len(a) == 2:
+                    ep, di = self._lit(a[0]), self._lit(a[1])
+                    if ep is not None and ep[0] == "b" and di is not None:
+                        if di[0] == "n":
+                            return tuple(GRIDPTS(sp.Integer(int(ep[1])), sp.Integer(k)) for k in range(3))
+                        if di[0] == "s" and di[1] in DIRS:
+                            return GRIDPTS(sp.Integer(int(ep[1])), sp.Integer(DIRS.index(di[1])))
+            if isnp and short in ("concatenate", "hstack") and n.args:
+                ax = kwarg(n, "axis", 1) if short == "concatenate" else None
+                if ax is None or (isinstance(ax, ast.Constant) and ax.value == 0):
+                    seq = self.expr(n.args[0], env, depth)
+                    if isinstance(seq, (list, tuple)):
+                        out = []
+                        for p in seq:
+                            if isinstance(p, (list, tuple)):
+                                out.extend(p)
+                            elif isinstance(p, sp.Basic):
+                                out.append(SPLICE(p))
+                            else:
+                                raise Undecided("concatenate of a non-term")
+                        return out
+            if isnp and short == "full" and kwarg(n, "shape", 0) is not None and kwarg(n, "fill_value", 1) is not None:
+                shape, val = self.expr(kwarg(n, "shape", 0), env, depth), self.expr(kwarg(n, "fill_value", 1), env, depth)
+                if isinstance(shape, sp.Basic) and isinstance(val, sp.Basic):
+                    return val * sp.Function("np.ones")(shape)
+            if d == "len" and len(n.args) == 1 and not n.keywords:
+                v = self.expr(n.args[0], env, depth)
+                if _fn(v, GRIDPTS):
+                    return SIZE(v)      # a 1-d array: its length is its size
+            if d == "list" and len(n.args) == 1 and not n.keywords:
+                v = self.expr(n.args[0], env, depth)
+                if isinstance(v, sp.Basic):
+                    return [SPLICE(v)]
+                if isinstance(v, (list, tuple)):
+                    return list(v)
+            rec = None
+            if isnp and short in NP_SIG:
+                rec = (NP_SIG[short], {})
+            elif not isnp and short in PKG_RECORD:
+                rec = self.sig(short, d, env)
+            if rec is not None:
+                raw = self.bind(n, rec[0], rec[1], env, depth)
+                self.records.append((short, raw))
+                name = {"sum": "NPSUM", "eye": "np.identity"}.get(short, ("np." + short) if isnp else short)
+                return self._unint(name, raw, {})
+        f = n.func
+        if isinstance(f, ast.Attribute) and f.attr not in ("view", "astype", "copy", "item", "append"):
+            b = dotted(f.value)
+            if b is not None and b in env and isinstance(env[b], sp.Basic):
+                # method of a local value: keep the receiver (terms.Extractor would name the function after the local variable)
+                if f.attr == "tolist":
+                    return env[b]
+                args = [self.expr(a, env, depth) for a in n.args]
+                kwargs = {k.arg: self.expr(k.value, env, depth) for k in n.keywords if k.arg}
+                return self._unint("meth_" + f.attr, [env[b]] + args, kwargs)
+        return super().call(n, env, depth)
+
+    # ---- running
+    _outer = None
+
+    def paths(self, finfo, args=None, outer_env=None, depth=0):
+        if outer_env is None and self._outer:
+            outer_env = dict(self._outer)      # inlined helpers see the same fixed attributes (self.rank) as the analysed method
+        return super().paths(finfo, args, outer_env, depth)
+
+    def run(self, fi, args=None, outer=None):
+        """normal paths of fi"""
+        self._outer = outer
+        return [p for p in self.paths(fi, args or {}, outer) if p.raised is None]
+
+    def value(self, fi, args=None):
+        vals = []
+        for p in self.run(fi, args):
+            if not any(_same(p.value, v) for v in vals):
+                vals.append(p.value)
+        if len(vals) != 1:
+            raise Undecided(f"{fi.name}: {len(vals)} distinct return values for {self.c or args}")
+        return vals[0]
+
+    def recorded(self, short, bc=False):
+        """distinct argument lists of the recorded calls of `short` (without broadcasting wrappers unless bc=True)"""
+        out = []
+        for s, raw in self.records:
+            if s != short:
+                continue
+            raw = raw if bc else _nobc(raw)
+            if not any(_same(raw, o) for o in out):
+                out.append(raw)
+        return out
 
 
-GRID_SIZE = {}
+def _nobc(t):
+    """t without the broadcasting wrappers BC(x, pattern) -> x"""
+    if isinstance(t, (list, tuple)):
+        return type(t)(_nobc(x) for x in t)
+    if isinstance(t, sp.Basic) and t.has(BC):
+        return t.replace(lambda e: _fn(e, BC), lambda e: _nobc(e.args[0]))
+    return t
 
 
-def _arange(e: ast.expr, c: dict, sizes: dict):
-    """(start, stop) of an np.arange(...) [+ k] expression as sympy in M, N"""
-    def val(x):
-        if isinstance(x, ast.Constant):
-            return sp.Integer(int(x.value)) if not isinstance(x.value, bool) else sp.Integer(int(x.value))
-        if isinstance(x, ast.Name) and x.id == "endpoints":
-            return sp.Integer(1 if c["ep"] else 0)
-        s = n(x)
-        if s in ("self.grid.M", "self.M"):
-            return M
-        if s in ("self.grid.N", "self.N"):
-            return N
-        if s in ("grid.size",):
-            return sizes[(c["dir"], c.get("grid_ep", c["ep"]))]
-        if isinstance(x, ast.BinOp):
-            a, b = val(x.left), val(x.right)
-            return {ast.Add: a + b, ast.Sub: a - b, ast.Mult: a * b}[type(x.op)]
-        raise Undecided(f"arange argument {s}")
-    if isinstance(e, ast.BinOp) and isinstance(e.op, (ast.Add, ast.Sub)):
-        a0, a1 = _arange(e.left, c, sizes)
-        k = val(e.right)
-        k = k if isinstance(e.op, ast.Add) else -k
-        return a0 + k, a1 + k
-    if isinstance(e, ast.Call) and (dotted(e.func) or "").endswith("arange"):
-        if len(e.args) == 1:
-            return sp.Integer(0), val(e.args[0])
-        return val(e.args[0]), val(e.args[1])
-    raise Undecided(f"not an arange expression: {n(e)}")
+def _same(a, b) -> bool:
+    if isinstance(a, (list, tuple)) and isinstance(b, (list, tuple)):
+        return len(a) == len(b) and all(_same(x, y) for x, y in zip(a, b))
+    if isinstance(a, Opaque) and isinstance(b, Opaque):
+        return a.text == b.text
+    if isinstance(a, (list, tuple, Opaque)) or isinstance(b, (list, tuple, Opaque)):
+        return False
+    return a == b
 
 
-def _grid_sizes(chk: Check) -> dict:
+# ---------------------------------------------------------------- decoding of terms
+def _msub(e):
+    """the grid sizes are called self.grid.M / self.M / M (constructor argument stored in self.M): one symbol each"""
+    if not isinstance(e, sp.Basic):
+        return e
+    rep = {}
+    for s in e.free_symbols:
+        if s.name in ("self.grid.M", "self.M", "M"):
+            rep[s] = M
+        elif s.name in ("self.grid.N", "self.N", "N"):
+            rep[s] = N
+    return e.xreplace(rep)
+
+
+def _sized(e, full):
+    """replace SIZE(grid points) by the point count"""
+    if not isinstance(e, sp.Basic):
+        return e
+    rep = {}
+    for a in e.atoms(sp.Function):
+        if _fn(a, SIZE) and _fn(a.args[0], GRIDPTS):
+            ep, k = a.args[0].args
+            rep[a] = full[(DIRS[int(k)], bool(ep))]
+        elif _fn(a, GETITEM) and a.args[1] == 0 and _fn(a.args[0], SHAPE) and _fn(a.args[0].args[0], GRIDPTS):
+            ep, k = a.args[0].args[0].args      # shape[0] of a 1-d array
+            rep[a] = full[(DIRS[int(k)], bool(ep))]
+    return e.xreplace(rep)
+
+
+def _rng(t, full):
+    """(start, stop) of a term ARANGE(a, b) + k with a, b, k polynomials in M, N"""
+    if not isinstance(t, sp.Basic):
+        return None
+    t = _msub(_sized(_nobc(t), full))
+    ar = [a for a in t.atoms(sp.Function) if _fn(a, ARANGE)]
+    if len(ar) != 1:
+        return None
+    k = sp.expand(t - ar[0])
+    a, b = ar[0].args
+    if k.has(ARANGE) or not (k.free_symbols | a.free_symbols | b.free_symbols) <= {M, N}:
+        return None
+    return sp.expand(a + k), sp.expand(b + k)
+
+
+def _label(v):
+    return None if v is None else (v.text if isinstance(v, Opaque) else f"?{v}")
+
+
+def _parity(w, k):
+    """(value for even k, value for odd k) of WHERE(k % 2 == 0 | != 0 | == 1, a, b), else None"""
+    if isinstance(w, sp.Basic) and w.has(sp.Mod(k, 2)) and not w.has(WHERE):
+        m = sp.Mod(k, 2)
+        return sp.simplify(w.subs(m, 0)), sp.simplify(w.subs(m, 1))     # k % 2 is 0 for even and 1 for odd k
+    if not _fn(w, WHERE):
+        return None
+    c, a, b = w.args
+    name = getattr(c.func, "__name__", "")
+    if name not in ("EQ", "NE") or len(c.args) != 2:
+        return None
+    l, r = c.args
+    if r.has(k) and not l.has(k):
+        l, r = r, l
+    if l != sp.Mod(k, 2) or r not in (sp.Integer(0), sp.Integer(1)):
+        return None
+    even_first = (name == "EQ") == (r == 0)
+    return (a, b) if even_first else (b, a)
+
+
+def _deriv_decode(v, d, full):
+    """Chebyshev derivative matrix  n U_{n-1}(x_i) - correction:  dict(nvec, rng, corr, bulk) from the returned term.
+    nvec is the index vector (from the order n - 1 of U), bulk says that value and orientation (rows x[:, None], columns n[None, :]) fit"""
+    out = dict(nvec=None, rng=None, corr=None, bulk=False)
+    if not isinstance(v, sp.Basic):
+        return out
+    g = GRIDPTS(sp.Integer(1), sp.Integer(DIRS.index(d)))
+    flat = _nobc(v)
+    us = {a for a in flat.atoms(sp.Function) if _named(a, "eval_chebyu")}
+    if len(us) != 1:
+        return out
+    u = next(iter(us))
+    if len(u.args) != 2 or u.args[1] != g:
+        return out
+    nvec = sp.expand(u.args[0] + 1)
+    out["nvec"] = _sized(nvec, full)
+    out["rng"] = _rng(nvec, full)
+    c = sp.simplify(nvec * u - flat)
+    out["corr"] = _sized(c, full)
+    # orientation: every occurrence of the index vector sits in BC(., 'None,:'), every occurrence of the grid in BC(., ':,None')
+    k = [0]
+
+    def dummy(e):
+        k[0] += 1
+        return sp.Dummy(f"bc{k[0]}")
+    outside = v.replace(lambda e: _fn(e, BC), dummy)
+    pats_ok = all((b.args[1].name == "bc|None,:") if b.args[0].has(ARANGE) else (b.args[1].name == "bc|:,None") if b.args[0].has(GRIDPTS) else True
+                  for b in v.atoms(sp.Function) if _fn(b, BC))
+    out["bulk"] = not c.has(sp.Function("eval_chebyu")) and not out["corr"].has(g) and pats_ok and not outside.has(ARANGE) and not outside.has(GRIDPTS)
+    return out
+
+
+def _array(v):
+    """(origin direction, entries before, entries after) of a padded copy of one of the grid's compact coordinate arrays"""
+    inv = {a: d for d, a in GRID_ATTR.items()}
+    if isinstance(v, sp.Symbol):
+        v = [SPLICE(v)]
+    if not isinstance(v, list):
+        return None
+    sp_ = [i for i, x in enumerate(v) if _fn(x, SPLICE)]
+    if len(sp_) != 1 or not isinstance(v[sp_[0]].args[0], sp.Symbol) or v[sp_[0]].args[0].name not in inv:
+        return None
+    i = sp_[0]
+    if not all(isinstance(x, sp.Basic) and x.is_number for x in v[:i] + v[i + 1:]):
+        return None
+    return inv[v[i].args[0].name], v[:i], v[i + 1:]
+
+
+# ---------------------------------------------------------------- the grid
+def _grid(chk: Check) -> dict:
     S = chk.src
     gi = S.func("grid:Grid.__init__")
     chk.touch(gi.name)
-    sizes = {}
-    names = {"chiValues": "z", "rzValues": "pz", "rpValues": "pp"}
-    dens = {}
-    for guards, st in walk_guarded(gi.node):
-        if isinstance(st, ast.Assign) and n(st.targets[0]).startswith("self.") and n(st.targets[0])[5:] in names:
-            spectral = any(pol and "Spectral" in n(t) for t, pol in guards if not isinstance(t, tuple))
-            if not spectral:
-                continue
-            d = names[n(st.targets[0])[5:]]
-            ar = [c for c in ast.walk(st.value) if isinstance(c, ast.Call) and (dotted(c.func) or "").endswith("arange")]
-            if len(ar) != 1:
-                raise Undecided("Grid.__init__: node formula without arange")
-            a0, a1 = _arange(ar[0], {"ep": False, "dir": d}, {})
-            a0 = a0.subs({M: M, N: N})
-            sizes[(d, False)] = sp.expand(a1 - a0).subs({sp.Symbol("M"): M})
-            # -cos(arange * pi / D)
-            ok = isinstance(st.value, ast.UnaryOp) and isinstance(st.value.op, ast.USub) and isinstance(st.value.operand, ast.Call) \
-                and (dotted(st.value.operand.func) or "").endswith("cos")
-            den = None
-            if ok:
-                arg = st.value.operand.args[0]
-                if isinstance(arg, ast.BinOp) and isinstance(arg.op, ast.Div):
-                    den = n(arg.right).strip("()")
-                    okpi = "np.pi" in n(arg.left)
-                    ok = ok and okpi
-            dens[d] = (den, a0, a1, ok)
-    # `self.M` in Grid.__init__
-    sizes = {k: v.subs({sp.Symbol("self.M"): M}) for k, v in sizes.items()}
-    return sizes, dens
+    if "spacing" not in gi.params():
+        raise AnchorMissing("Grid.__init__ has no `spacing` parameter")
+    ps = _PolyEx(S).run(gi, {"spacing": Opaque("Spectral")})
+    envs = [p.env for p in ps]
+    sizes, nodes = {}, {}
+    for d, attr in GRID_ATTR.items():
+        vals = []
+        for e in envs:
+            if not any(_same(e.get(attr), v) for v in vals):
+                vals.append(e.get(attr))
+        if len(vals) != 1 or not isinstance(vals[0], sp.Basic):
+            raise AnchorMissing(f"Grid.__init__: spectral nodes {attr} not found")
+        t = _msub(vals[0])
+        ar = [a for a in t.atoms(sp.Function) if _fn(a, ARANGE)]
+        if len(ar) != 1:
+            raise Undecided(f"Grid.__init__: node formula of {attr} without a single arange")
+        a0, a1 = ar[0].args
+        sizes[(d, False)] = sp.expand(a1 - a0)
+        # -cos(k pi / D)
+        k = sp.Dummy("k", positive=True)
+        u = -t.xreplace({ar[0]: k})
+        den = None
+        if u.func == sp.cos:
+            q = sp.simplify(sp.pi * k / u.args[0])
+            if not q.has(k):
+                den = q
+        nodes[d] = (den, a0, a1, str(t))
+    gc = S.func("grid:Grid.getCompactCoordinates")
+    chk.touch(gc.name)
+    prm = gc.params()
+    if len(prm) < 3:
+        raise AnchorMissing("Grid.getCompactCoordinates(endpoints, direction) not found")
+    arrays = {}
+    for ep in (True, False):
+        for d in DIRS + (None,):
+            v = _PolyEx(S).value(gc, {prm[1]: sp.true if ep else sp.false, prm[2]: Opaque(d) if d else None})
+            arrays[(d, ep)] = [_array(x) for x in v] if d is None and isinstance(v, tuple) else _array(v)
+    full = dict(sizes)
+    for d in DIRS:
+        a = arrays[(d, True)]
+        if a is None or (a[0], False) not in sizes:
+            raise AnchorMissing("getCompactCoordinates: end-point branch not understood")
+        full[(d, True)] = sp.expand(sizes[(a[0], False)] + len(a[1]) + len(a[2]))
+    return dict(sizes=sizes, nodes=nodes, arrays=arrays, full=full, gi=gi, gc=gc)
 
 
-def r16_3(chk: Check, sizes, dens):
+EXPECT = {("z", False): M - 1, ("pz", False): N - 1, ("pp", False): N - 1, ("z", True): M + 1, ("pz", True): N + 1, ("pp", True): N}
+
+
+def r16_3(chk: Check, G: dict):
     S = chk.src
-    gi = S.func("grid:Grid.__init__")
-    want = {"z": ("self.M", 1, "M"), "pz": ("self.N", 1, "N"), "pp": ("self.N - 1", 0, "N-1")}
+    gi, full = G["gi"], G["full"]
+    want = {"z": (M, 1, "M"), "pz": (N, 1, "N"), "pp": (N - 1, 0, "N-1")}
     for d, (den, first, label) in want.items():
-        got = dens.get(d)
-        ok = got is not None and got[3] and got[0] == den and got[1] == first
+        got = G["nodes"].get(d)
+        ok = got is not None and got[0] is not None and sp.expand(got[0] - den) == 0 and got[1] == first
         chk.ob("R16.3", gi.where(), f"{d} nodes are -cos(k pi/({label})), k from {first}: Gauss-Lobatto points with the end point(s) at infinity dropped", ok,
                str(got), key=f"nodes|{d}")
-    # counts (symbols named self.M/self.N in Grid)
     fi = S.func(f"{PO}.integrate")
     chk.touch(fi.name)
-    wden = {}
-    halves = []
-    for guards, st in walk_guarded(fi.node):
-        if isinstance(st, ast.AugAssign) and isinstance(st.op, ast.Div):
-            g = [n(t).replace('"', "'") for t, pol in guards if pol and not isinstance(t, tuple)]
-            if n(st.target) == "weights":
-                for d in DIRS:
-                    if f"self.direction[i] == '{d}'" in g:
-                        wden[d] = n(st.value).replace("self.grid.", "self.").strip("()")
-            elif n(st.target).startswith("weights["):
-                halves.append((n(st.target), n(st.value), [x for x in g if "direction" in x or "endpoints" in x]))
+    got = {}      # (d, ep) -> decoded weighted factor
+    cb = set()
+    for d, ep in itertools.product(DIRS, (True, False)):
+        ex = _PolyEx(S, {"dir": d, "ep": ep, "basis": "Chebyshev"})
+        ex.run(fi)
+        # one symbolic axis: the new basis is ('Cardinal',) when the axis is integrated and its own basis otherwise
+        cb.add(tuple(sorted(str([_label(x) for x in r[0]]) if r and isinstance(r[0], tuple) else "?" for r in ex.recorded("changeBasis"))))
+        g = GRIDPTS(sp.Integer(int(ep)), sp.Integer(DIRS.index(d)))
+        facs = [r[0] for r in ex.recorded("expand_dims") if r and isinstance(r[0], sp.Basic)]
+        dec = dict(n=len(facs), sqrt=False, grid=False, ones=None, scale=None, half=None)
+        if len(facs) == 1:
+            t = facs[0]
+            gp = [a for a in t.atoms(sp.Function) if _fn(a, GRIDPTS)]
+            dec["grid"] = gp == [g]
+            w = sp.simplify(t / sp.sqrt(1 - g**2))
+            if not any(a.has(g) for a in w.atoms(sp.Pow)):
+                dec["sqrt"] = True
+                half = []
+                ok = True
+                while _fn(w, SETITEM):
+                    inner, k, val = w.args
+                    if sp.simplify(val - GETITEM(inner, k) / 2) != 0:
+                        ok = False
+                    half.append(int(k))
+                    w = inner
+                ones = [a for a in w.atoms(sp.Function) if _named(a, "np.ones")]
+                if ok and len(ones) == 1 and len(ones[0].args) == 1:
+                    dec["ones"] = _sized(ones[0].args[0], full)
+                    dec["scale"] = _msub(sp.simplify(w / ones[0]))
+                    dec["half"] = sorted(half)
+        got[(d, ep)] = dec
+    shown = {f"{d},{ep}": v for (d, ep), v in got.items()}
     for d, (den, first, label) in want.items():
-        chk.ob("R16.3", fi.where(), f"quadrature weight of direction {d} is pi/({label}): same denominator as its node formula", wden.get(d) == den,
-               f"{wden.get(d)} vs {den}", key=f"weight-den|{d}")
-    hs = {(a, tuple(g)) for a, v, g in halves if v == "2"}
-    ok = ("weights[0]", ("self.direction[i] == 'pp'", "not self.endpoints[i]")) in hs and \
-         ("weights[0]", ("self.endpoints[i]",)) in hs and ("weights[-1]", ("self.endpoints[i]",)) in hs and len(halves) == 3
+        sc = [got[(d, ep)]["scale"] for ep in (True, False)]
+        ok = all(s is not None and sp.simplify(s * den / sp.pi) == 1 for s in sc)
+        chk.ob("R16.3", fi.where(), f"quadrature weight of direction {d} is pi/({label}): same denominator as its node formula", ok,
+               f"{sc} vs pi/({den})", key=f"weight-den|{d}")
+    ok = all(v["half"] == ([-1, 0] if ep else ([0] if d == "pp" else [])) for (d, ep), v in got.items())
     chk.ob("R16.3", fi.where(), "end-point weights are halved: both ends when end points are kept; rho_par = -1 (a kept Lobatto end point) otherwise", ok,
-           str(sorted(hs)), key="halving")
-    base = [st for st in own_nodes(fi.node) if isinstance(st, ast.Assign) and n(st.targets[0]) == "weights"]
-    ok = len(base) == 1 and n(base[0].value) == "np.pi * np.ones(compactCoord.size)"
-    chk.ob("R16.3", fi.where(), "weights start from pi for every node of the integrated axis", ok, key="weight-base")
-    mult = [x for x in own_nodes(fi.node) if isinstance(x, ast.AugAssign) and n(x.target) == "integrand" and isinstance(x.op, ast.Mult)]
-    ok = len(mult) == 1 and "np.sqrt(1 - compactCoord ** 2) * weights" in n(mult[0].value)
+           str({k: v["half"] for k, v in shown.items()}), key="halving")
+    ok = all(v["scale"] is not None and sp.simplify(v["scale"] / sp.pi).free_symbols <= {M, N} and v["ones"] is not None
+             and sp.expand(v["ones"] - full[k]) == 0 for k, v in got.items())
+    chk.ob("R16.3", fi.where(), "weights start from pi for every node of the integrated axis", ok, str({k: (v["ones"], v["scale"]) for k, v in shown.items()}),
+           key="weight-base")
+    ok = all(v["n"] == 1 and v["sqrt"] for v in got.values())
     chk.ob("R16.3", fi.where(), "the Chebyshev weight 1/sqrt(1-x^2) of the rule is compensated by sqrt(1 - x^2)", ok, key="sqrt-factor")
-    cc = [c for c in calls_in(fi.node, "getCompactCoordinates")]
-    ok = len(cc) == 1 and [n(a) for a in cc[0].args] == ["self.endpoints[i]", "self.direction[i]"]
+    ok = all(v["grid"] for v in got.values())
     chk.ob("R16.3", fi.where(), "nodes of the integrated axis are the grid's compact coordinates for that axis' (endpoints, direction)", ok, key="nodes-used")
-    cb = [c for c in calls_in(fi.node, "changeBasis")]
-    ok = len(cb) == 1 and n(cb[0].func) == "self.changeBasis"
-    chk.ob("R16.3", fi.where(), "integrated axes are converted to the cardinal basis (grid values) first", ok, key="cardinal-first")
+    chk.ob("R16.3", fi.where(), "integrated axes are converted to the cardinal basis (grid values) first", cb == {("['Cardinal']", "['Chebyshev']")}, str(cb), key="cardinal-first")
     chk.floor("R16.3", 11)
 
 
-def r16_1(chk: Check, sizes):
+def _private_args(fi, d, ep):
+    """(direction, endpoints) are parameters 1 and 2 of the private matrix builders (called positionally by matrix / derivMatrix)"""
+    p = fi.params()
+    if len(p) < 3:
+        raise AnchorMissing(f"{fi.name}(direction, endpoints) not found")
+    return {p[1]: Opaque(d), p[2]: sp.true if ep else sp.false}
+
+
+def r16_1(chk: Check, G: dict):
     S = chk.src
-    # sizes with endpoints from getCompactCoordinates
-    gc = S.func("grid:Grid.getCompactCoordinates")
-    chk.touch(gc.name)
-    add = {}
-    for guards, st in walk_guarded(gc.node):
-        if isinstance(st, ast.Assign) and isinstance(st.targets[0], ast.Name) and any(pol and n(t) == "endpoints" for t, pol in guards if not isinstance(t, tuple)):
-            nm = st.targets[0].id
-            cnt = n(st.value).count("[-1]") + n(st.value).count("[1]")
-            add[nm] = cnt
-    full = dict(sizes)
-    for nm, d in (("chi", "z"), ("rz", "pz"), ("rp", "pp")):
-        if nm not in add:
-            raise AnchorMissing("getCompactCoordinates: end-point branch not found")
-        full[(d, True)] = sp.expand(sizes[(d, False)] + add[nm])
-    full = {k: v.subs({sp.Symbol("self.M"): M, sp.Symbol("self.N"): N}) for k, v in full.items()}
-    expect = {("z", False): M - 1, ("pz", False): N - 1, ("pp", False): N - 1, ("z", True): M + 1, ("pz", True): N + 1, ("pp", True): N}
-    chk.ob("R16.1", gc.where(), "grid point counts: M-1, N-1, N-1 without end points; M+1, N+1, N with them", all(sp.expand(full[k] - v) == 0 for k, v in expect.items()),
+    gc, full, arrays = G["gc"], G["full"], G["arrays"]
+    chk.ob("R16.1", gc.where(), "grid point counts: M-1, N-1, N-1 without end points; M+1, N+1, N with them", all(sp.expand(full[k] - v) == 0 for k, v in EXPECT.items()),
            str(full), key="grid-counts")
-    # direction dispatch of getCompactCoordinates
-    disp = {n(st.test).replace('"', "'"): n(st.body[0].value) for st in gc.node.body if isinstance(st, ast.If) and st.body and isinstance(st.body[0], ast.Return)}
-    ok = disp.get("direction == 'z'") == "chi" and disp.get("direction == 'pz'") == "rz" and disp.get("direction == 'pp'") == "rp"
-    chk.ob("R16.1", gc.where(), "getCompactCoordinates(direction) returns chi / rz / rp for 'z' / 'pz' / 'pp'", ok, str(disp), key="grid-dispatch")
+    ok = all(arrays[(d, ep)] is not None and arrays[(d, ep)][0] == d for d in DIRS for ep in (True, False)) and \
+        all(isinstance(arrays[(None, ep)], list) and [a and a[0] for a in arrays[(None, ep)]] == list(DIRS) for ep in (True, False)) and \
+        all(arrays[(None, ep)] == [arrays[(d, ep)] for d in DIRS] for ep in (True, False))
+    chk.ob("R16.1", gc.where(), "getCompactCoordinates(direction) returns chi / rz / rp for 'z' / 'pz' / 'pp'", ok, str({k: v and v[0] for k, v in arrays.items() if k[0]}),
+           key="grid-dispatch")
+    pads = {(d, ep): (arrays[(d, ep)][1], arrays[(d, ep)][2]) if arrays[(d, ep)] else None for d in DIRS for ep in (True, False)}
+    ok = all(pads[(d, False)] == ([], []) for d in DIRS) and pads[("z", True)] == ([-1], [1]) and pads[("pz", True)] == ([-1], [1]) and pads[("pp", True)] == ([], [1])
+    chk.ob("R16.1", gc.where(), "with end points the arrays are padded by chi = -1, +1, rho_z = -1, +1 and rho_par = +1 (rho_par = -1 is a regular node)", ok, str(pads),
+           key="grid-endpoints")
 
-    table = {}  # site -> {(dir, ep[, basis]): (start, stop, restriction)}
-
-    def collect(fname, basis_dim=False, grid_ep=None, only_guard=None):
-        fi = S.func(f"{PO}.{fname}")
-        chk.touch(fi.name)
-        out = {}
-        for d, ep in itertools.product(DIRS, (True, False)):
-            for basis in (("Cardinal", "Chebyshev") if basis_dim else (None,)):
-                c = {"dir": d, "ep": ep, "basis": basis}
-                if grid_ep is not None:
-                    c["grid_ep"] = grid_ep
-                cur = None
-                restr = None
-                for guards, st in walk_guarded(fi.node):
-                    if only_guard is not None and not any(only_guard in n(t) for t, pol in guards if not isinstance(t, tuple)) and only_guard != "":
-                        pass
-                    if not _applies(guards, c):
-                        continue
-                    if isinstance(st, (ast.Assign, ast.AnnAssign)):
-                        tg = st.targets[0] if isinstance(st, ast.Assign) else st.target
-                        if st.value is None:
-                            continue
-                        if n(tg) == "n" and "arange" in n(st.value):
-                            cur = _arange(st.value, c, full)
-                        if n(tg) == "restriction":
-                            restr = st.value.value if isinstance(st.value, ast.Constant) else None
-                        if n(tg).strip("()") == "n, restriction":
-                            cur, restr = None, None
-                    if isinstance(st, ast.AugAssign) and n(st.target) == "n" and isinstance(st.op, ast.Add):
-                        if cur is not None:
-                            k = sp.Integer(int(n(st.value)))
-                            cur = (cur[0] + k, cur[1] + k)
-                out[(d, ep, basis)] = (cur, restr)
-        return fi, out
-
-    f_cb, t_cb = collect("changeBasis")
-    f_ev, t_ev = collect("evaluate", basis_dim=True)
-    f_cm, t_cm = collect("_chebyshevMatrix")
-    f_cd, t_cd = collect("_chebyshevDeriv", grid_ep=True)
+    fns = {nm: S.func(f"{PO}.{nm}") for nm in ("changeBasis", "evaluate", "_chebyshevMatrix", "_chebyshevDeriv", "_cardinalMatrix", "_checkCoefficients", "_cardinalDeriv")}
+    chk.touch(*[f.name for f in fns.values()])
+    f_cb, f_ev = fns["changeBasis"], fns["evaluate"]
     restr_want = {"z": "full", "pz": "full", "pp": "partial"}
+    axis_use = {}
+
+    def cheb_sites(ex, x_is_grid, d, ep):
+        """[(range, restriction label, x is the grid of the combination)] of the recorded self.chebyshev(x, n, restriction) calls"""
+        out = []
+        for raw in ex.recorded("chebyshev"):
+            if len(raw) < 3:
+                out.append((None, "?", False))
+                continue
+            xg = _fn(raw[0], GRIDPTS) and raw[0] == GRIDPTS(sp.Integer(int(ep)), sp.Integer(DIRS.index(d)))
+            item = (_rng(raw[1], full), _label(raw[2]), bool(xg) or not x_is_grid)
+            if item not in out:
+                out.append(item)
+        return out
+
+    deriv_terms = {}
     for d, ep in itertools.product(DIRS, (True, False)):
-        cnt = expect[(d, ep)]
+        cnt = EXPECT[(d, ep)]
         start = sp.Integer(0) if ep else (sp.Integer(2) if d in ("z", "pz") else sp.Integer(1))
         label = f"{d}, {'with' if ep else 'without'} end points"
+        sites = {}
+        ex = _PolyEx(S, {"dir": d, "ep": ep, "basis": "Cardinal"})
+        ex.run(f_cb)
+        sites["changeBasis"] = cheb_sites(ex, True, d, ep)
+        axis_use.setdefault("changeBasis", []).append((ex.idx, ex.axis_names))
+        ex = _PolyEx(S, {"dir": d, "ep": ep, "basis": "Chebyshev"})
+        ex.run(f_ev)
+        sites["evaluate[Chebyshev]"] = cheb_sites(ex, False, d, ep)
+        axis_use.setdefault("evaluate", []).append((ex.idx, ex.axis_names))
+        ex = _PolyEx(S)
+        ex.run(fns["_chebyshevMatrix"], _private_args(fns["_chebyshevMatrix"], d, ep))
+        sites["_chebyshevMatrix"] = cheb_sites(ex, True, d, ep)
         rows = []
-        for nm, tab, key in (("changeBasis", t_cb, (d, ep, None)), ("evaluate[Chebyshev]", t_ev, (d, ep, "Chebyshev")),
-                             ("_chebyshevMatrix", t_cm, (d, ep, None)), ("_chebyshevDeriv", t_cd, (d, ep, None))):
-            (rng, restr) = tab[key]
-            if rng is None:
-                rows.append(f"{nm}: no index range")
+        wantr = None if ep else restr_want[d]
+        for nm, found in sites.items():
+            if len(found) != 1 or found[0][0] is None:
+                rows.append(f"{nm}: no single index range ({len(found)} chebyshev calls)")
                 continue
-            okr = sp.expand(rng[0] - start) == 0 and sp.expand(rng[1] - rng[0] - cnt) == 0
-            # restriction: None with end points (except _chebyshevDeriv which guards it separately), label otherwise
-            wantr = None if ep else restr_want[d]
-            okq = True
-            if nm in ("changeBasis", "evaluate[Chebyshev]", "_chebyshevMatrix"):
-                okq = restr == wantr
-            elif nm == "_chebyshevDeriv" and not ep:
-                okq = restr == wantr
-            if not (okr and okq):
-                rows.append(f"{nm}: n in [{rng[0]}, {rng[1]}) restriction {restr}")
+            rng, restr, xg = found[0]
+            if not (sp.expand(rng[0] - start) == 0 and sp.expand(rng[1] - rng[0] - cnt) == 0 and restr == wantr and xg):
+                rows.append(f"{nm}: n in [{rng[0]}, {rng[1]}) restriction {restr}{'' if xg else ' on other points than the grid of this axis'}")
+        # _chebyshevDeriv: n U_{n-1}(x) on all grid points (with the end points); 'full' correction exactly without end points (R16.2)
+        fd = fns["_chebyshevDeriv"]
+        v = _PolyEx(S).value(fd, _private_args(fd, d, ep))
+        deriv_terms[(d, ep)] = v
+        rng = _deriv_decode(v, d, full)["rng"]
+        if rng is None:
+            rows.append("_chebyshevDeriv: no index range")
+        elif not (sp.expand(rng[0] - start) == 0 and sp.expand(rng[1] - rng[0] - cnt) == 0):
+            rows.append(f"_chebyshevDeriv: n in [{rng[0]}, {rng[1]})")
         chk.ob("R16.1", f_cb.where(), f"Chebyshev index range for ({label}) is {cnt} functions starting at T_{start}"
                f"{'' if ep else ' with restriction ' + restr_want[d]} at all four sites", not rows, "; ".join(rows), key=f"cheb-range|{d}|{ep}")
         # cardinal arm of evaluate: indices into the full grid
-        (rng, _) = t_ev[(d, ep, "Cardinal")]
+        ex = _PolyEx(S, {"dir": d, "ep": ep, "basis": "Cardinal"})
+        ex.run(f_ev)
+        card = []
+        for raw in ex.recorded("cardinal"):
+            item = (_rng(raw[1], full), _label(raw[2])) if len(raw) == 3 else (None, None)
+            if item not in card:
+                card.append(item)
         cstart = sp.Integer(0) if ep else (sp.Integer(1) if d in ("z", "pz") else sp.Integer(0))
-        okc = rng is not None and sp.expand(rng[0] - cstart) == 0 and sp.expand(rng[1] - rng[0] - cnt) == 0
+        rng = card[0][0] if len(card) == 1 else None
+        okc = rng is not None and sp.expand(rng[0] - cstart) == 0 and sp.expand(rng[1] - rng[0] - cnt) == 0 and card[0][1] == d and not ex.recorded("chebyshev")
         chk.ob("R16.1", f_ev.where(), f"cardinal index range of evaluate for ({label}) is {cnt} functions starting at grid index {cstart}", okc,
                str(rng), key=f"card-range|{d}|{ep}")
     # _cardinalMatrix / _checkCoefficients / _cardinalDeriv
-    fcm = S.func(f"{PO}._cardinalMatrix")
-    chk.touch(fcm.name)
-    ids = {}
-    for st in fcm.node.body:
-        if isinstance(st, ast.If) and isinstance(st.body[0], ast.Return):
-            ids[n(st.test).replace('"', "'")] = st.body[0].value
-        elif isinstance(st, ast.Return):
-            ids["else"] = st.value
-    szmap = {"direction == 'z'": "z", "direction == 'pz'": "pz", "else": "pp"}
-    okm = True
+    fcm = fns["_cardinalMatrix"]
     det = []
-    for k, d in szmap.items():
-        call = ids.get(k)
-        if call is None:
-            okm = False
-            continue
-        arg = call.args[0]
-        for ep in (True, False):
-            v = _arange(ast.Call(func=ast.Attribute(value=ast.Name(id="np", ctx=ast.Load()), attr="arange", ctx=ast.Load()), args=[arg], keywords=[]),
-                        {"dir": d, "ep": ep}, full)[1]
-            if sp.expand(v - expect[(d, ep)]) != 0:
-                okm = False
-                det.append(f"{d},{ep}: {v}")
-    chk.ob("R16.1", fcm.where(), "_cardinalMatrix is the identity of the grid's point count for every (direction, endpoints)", okm, "; ".join(det), key="cardinal-matrix")
-    fck = S.func(f"{PO}._checkCoefficients")
-    chk.touch(fck.name)
-    asserts = []
-    for guards, st in walk_guarded(fck.node):
-        if isinstance(st, ast.Assert):
-            g = [n(t).replace('"', "'") for t, pol in guards if not isinstance(t, tuple) and "direction" in n(t)]
-            pols = [pol for t, pol in guards if not isinstance(t, tuple) and "direction" in n(t)]
-            asserts.append((g, pols, n(st.test).replace(" ", "")))
-    want_a = {"z": "size+2*(1-self.endpoints[i])==self.grid.M+1", "pz": "size+2*(1-self.endpoints[i])==self.grid.N+1", "pp": "size+(1-self.endpoints[i])==self.grid.N"}
+    for d, ep in itertools.product(DIRS, (True, False)):
+        v = _PolyEx(S).value(fcm, _private_args(fcm, d, ep))
+        k = _msub(_sized(v.args[0], full)) if _named(v, "np.identity") and len(v.args) == 1 else None
+        if k is None or sp.expand(k - EXPECT[(d, ep)]) != 0:
+            det.append(f"{d},{ep}: {k if k is not None else v}")
+    chk.ob("R16.1", fcm.where(), "_cardinalMatrix is the identity of the grid's point count for every (direction, endpoints)", not det, "; ".join(det), key="cardinal-matrix")
+    fck = fns["_checkCoefficients"]
     got_a = {}
-    for g, pols, t in asserts:
-        if g and pols[-1] and "'z'" in g[-1]:
-            got_a["z"] = t
-        elif g and pols[-1] and "'pz'" in g[-1]:
-            got_a["pz"] = t
-        else:
-            got_a["pp"] = t
-    chk.ob("R16.1", fck.where(), "_checkCoefficients accepts exactly the grid's point count on every polynomial axis", got_a == want_a, str(got_a), key="check-coefficients")
-    fcd = S.func(f"{PO}._cardinalDeriv")
-    chk.touch(fcd.name)
-    sl = {}
-    for guards, st in walk_guarded(fcd.node):
-        if isinstance(st, ast.Assign) and n(st.targets[0]) == "deriv" and isinstance(st.value, ast.Subscript):
-            g = [n(t).replace('"', "'") for t, pol in guards if pol and not isinstance(t, tuple)]
-            sl[tuple(g)] = n(st.value.slice).strip("()")
-    ok = sl.get(("not endpoints", "direction in ['z', 'pz']")) == "1:-1, :" and sl.get(("not endpoints", "direction == 'pp'")) == ":-1, :"
-    chk.ob("R16.1", fcd.where(), "_cardinalDeriv drops the cardinal functions of the dropped end points: [1:-1] for z, pz and [:-1] for pp", ok, str(sl), key="cardinal-deriv-rows")
-    g_ = [c for c in calls_in(fcd.node, "getCompactCoordinates")]
-    ok = len(g_) == 1 and [n(a) for a in g_[0].args] == ["True", "direction"]
-    chk.ob("R16.1", fcd.where(), "derivative matrices are evaluated on all grid points including the end points", ok, key="cardinal-deriv-grid")
-    rt = [r for r in own_nodes(fcd.node) if isinstance(r, ast.Return)]
-    ok = len(rt) == 1 and n(rt[0].value) == "np.transpose(deriv)"
-    chk.ob("R16.1", fcd.where(), "the matrix is returned as [point, function] (transpose of [function, point])", ok, key="cardinal-deriv-transpose")
-    chk.floor("R16.1", 18)
+    for d, ep in itertools.product(DIRS, (True, False)):
+        ex = _PolyEx(S, {"dir": d, "ep": ep, "basis": "Cardinal"})
+        ex.run(fck)
+        axis_use.setdefault("_checkCoefficients", []).append((ex.idx, ex.axis_names))
+        acc = []
+        for t in ex.asserts:
+            if not (isinstance(t, sp.Basic) and getattr(t.func, "__name__", "") == "EQ"):
+                continue
+            sz = [a for a in t.atoms(sp.Function) if _fn(a, GETITEM) and _fn(a.args[0], SHAPE)]
+            if len(sz) != 1:
+                continue
+            e = sp.expand(_msub(t.args[0] - t.args[1]))
+            co = e.coeff(sz[0])
+            rest = sp.expand(e - co * sz[0])
+            if co in (1, -1) and not rest.has(sz[0]):
+                acc.append(sp.expand(-rest / co))
+        got_a[(d, ep)] = acc
+    ok = all(len(v) == 1 and sp.expand(v[0] - EXPECT[k]) == 0 for k, v in got_a.items())
+    chk.ob("R16.1", fck.where(), "_checkCoefficients accepts exactly the grid's point count on every polynomial axis", ok, str(got_a), key="check-coefficients")
+    fcd = fns["_cardinalDeriv"]
+    rows, grids, tr, mats = {}, [], [], {}
+    for d, ep in itertools.product(DIRS, (True, False)):
+        ex = _PolyEx(S)
+        v = ex.value(fcd, _private_args(fcd, d, ep))
+        gcalls = ex.recorded("getCompactCoordinates")
+        tr.append(_fn(v, TRANSPOSE) and len(v.args) == 1)
+        inner = v.args[0] if tr[-1] else v
+        sl = ""
+        if _fn(inner, SUB):
+            inner, sl = inner.args[0], inner.args[1].name[3:]
+        rows[(d, ep)] = sl
+        mats[(d, ep)] = inner
+        gp = {a for a in inner.atoms(sp.Function) if _fn(a, GRIDPTS)} if isinstance(inner, sp.Basic) else set()
+        grids.append(gp == {GRIDPTS(sp.Integer(1), sp.Integer(DIRS.index(d)))} and len(gcalls) == 1)
+    ok = all(rows[(d, True)] == "" for d in DIRS) and rows[("z", False)] == "1:-1" and rows[("pz", False)] == "1:-1" and rows[("pp", False)] == ":-1" \
+        and all(mats[(d, False)] == mats[(d, True)] for d in DIRS)
+    chk.ob("R16.1", fcd.where(), "_cardinalDeriv drops the cardinal functions of the dropped end points: [1:-1] for z, pz and [:-1] for pp", ok, str(rows), key="cardinal-deriv-rows")
+    chk.ob("R16.1", fcd.where(), "derivative matrices are evaluated on all grid points including the end points", all(grids), key="cardinal-deriv-grid")
+    chk.ob("R16.1", fcd.where(), "the matrix is returned as [point, function] (transpose of [function, point])", all(tr), key="cardinal-deriv-transpose")
+    # per-axis attributes are read at the index of the axis that is being worked on
+    for nm, uses in axis_use.items():
+        idx = set().union(*[u[0] for u in uses])
+        names = set().union(*[u[1] for u in uses])
+        chk.ob("R16.1", fns[nm].where(), f"{nm}: direction, endpoints and basis are all read at the index of the axis the loop is working on", len(names) == 1 and idx <= names,
+               f"indices {sorted(idx)}, loop index {sorted(names)}", key=f"axis-index|{nm}")
+    chk.floor("R16.1", 23)
+    return deriv_terms
 
 
-def r16_2(chk: Check):
+def r16_2(chk: Check, G: dict, deriv_terms: dict):
     S = chk.src
-    ex = Extractor(S)
+    full = G["full"]
     fc = S.func(f"{PO}.chebyshev")
     fd = S.func(f"{PO}._chebyshevDeriv")
     chk.touch(fc.name, fd.name)
-    x = ex.sym("compactCoord")
-    nn = ex.sym("n")
-    corr = {}
-    for guards, st in walk_guarded(fc.node):
-        if isinstance(st, ast.AugAssign) and n(st.target) == "cheb" and isinstance(st.op, ast.Sub):
-            g = [n(t).replace('"', "'") for t, pol in guards if pol and not isinstance(t, tuple)]
-            key = "partial" if any("'partial'" in q for q in g) else ("full" if any("'full'" in q for q in g) else "?")
-            corr[key] = ex.expr(st.value, {"__module__": "polynomial", "__class__": "Polynomial"})
-    dcorr = {}
-    for guards, st in walk_guarded(fd.node):
-        if isinstance(st, ast.AugAssign) and n(st.target) == "deriv" and isinstance(st.op, ast.Sub):
-            g = [n(t).replace('"', "'") for t, pol in guards if pol and not isinstance(t, tuple)]
-            key = "full" if any("'full'" in q and "not endpoints" in q for q in g) else "?"
-            dcorr[key] = ex.expr(st.value, {"__module__": "polynomial", "__class__": "Polynomial"})
-    ok = set(corr) == {"partial", "full"} and set(dcorr) == {"full"}
+    prm = fc.params()
+    if len(prm) < 4:
+        raise AnchorMissing("Polynomial.chebyshev(compactCoord, n, restriction) not found")
+    vals = {}
+    for r in (None, "partial", "full"):
+        ex = _PolyEx(S)
+        vals[r] = ex.value(fc, {prm[3]: Opaque(r) if r else None})
+    x, nn = (Extractor.sym(ex, prm[1]), Extractor.sym(ex, prm[2]))
+    base = vals[None]
+    okb = _named(base, "eval_chebyt") and base.args == (nn, x)
+    corr = {r: sp.simplify(base - vals[r]) if isinstance(vals[r], sp.Basic) and isinstance(base, sp.Basic) else None for r in ("partial", "full")}
+    # derivative matrix: bulk n U_{n-1}(grid) minus a correction
+    dcorr, bulk_ok = {}, True
+    for (d, ep), v in deriv_terms.items():
+        dec = _deriv_decode(v, d, full)
+        bulk_ok = bulk_ok and dec["bulk"]
+        dcorr[(d, ep)] = (dec["corr"], dec["nvec"]) if dec["corr"] is not None else None
+    nz = {k for k, v in dcorr.items() if v is None or v[0] != 0}
+    ok = corr["partial"] not in (None, 0) and corr["full"] not in (None, 0) and nz == {("z", False), ("pz", False)} and bulk_ok
     chk.ob("R16.2", fd.where(), "corrections: chebyshev() subtracts one for 'partial' and one for 'full'; the derivative matrix corrects 'full' without end points only",
-           ok, f"{corr} / {dcorr}", key="correction-sites")
+           ok, f"{corr} / {({k: v and v[0] for k, v in dcorr.items()})}", key="correction-sites")
     if ok:
-        cf, df_ = corr["full"], dcorr["full"]
-        okf = isinstance(cf, sp.Basic) and cf.func == WHERE and isinstance(df_, sp.Basic) and df_.func == WHERE
-        if okf:
-            same_cond = str(cf.args[0]) == str(df_.args[0]).replace("getitem(n, idx_None__Slice__)", "n") or True
-            d1 = sp.diff(cf.args[1], x) - df_.args[1]
-            d2 = sp.diff(cf.args[2], x) - df_.args[2]
-            okf = sp.simplify(d1) == 0 and sp.simplify(d2) == 0 and "Mod" in str(cf.args[0]) and "Mod" in str(df_.args[0])
+        cf = _parity(corr["full"], nn)
+        okf, okv = False, False
+        shown = []
+        if cf is not None:
+            okf = True
+            for k in (("z", False), ("pz", False)):
+                c, A = dcorr[k]
+                df_ = _parity(c, A)
+                shown.append(str(c))
+                okf = okf and df_ is not None and sp.simplify(sp.diff(cf[0], x) - df_[0]) == 0 and sp.simplify(sp.diff(cf[1], x) - df_[1]) == 0
+            even, odd = cf
+            okv = even == 1 and sp.simplify(odd.subs(x, 1) - 1) == 0 and sp.simplify(odd.subs(x, -1) + 1) == 0
         chk.ob("R16.2", fd.where(), "'full': d/dx [1 (n even), x (n odd)] == [0 (n even), 1 (n odd)] -- the derivative correction is the derivative of the basis correction",
-               bool(okf), f"{cf} / {df_}", key="full-derivative")
+               bool(okf), f"{corr['full']} / {shown}", key="full-derivative")
         chk.ob("R16.2", fc.where(), "'partial': the subtracted constant 1 has zero derivative (no derivative correction needed)", corr["partial"] == 1, str(corr["partial"]),
                key="partial-derivative")
         # vanishing at the dropped end points: T_n(1) = 1, T_n(-1) = (-1)^n
-        if isinstance(cf, sp.Basic) and cf.func == WHERE:
-            even, odd = cf.args[1], cf.args[2]
-            okv = even == 1 and sp.simplify(odd.subs(x, 1) - 1) == 0 and sp.simplify(odd.subs(x, -1) + 1) == 0
+        if cf is not None:
             chk.ob("R16.2", fc.where(), "'full' restricted functions T_n - {1, x} vanish at x = +1 and x = -1 (T_n(1) = 1, T_n(-1) = (-1)^n)", okv, key="full-vanishes")
-    bulk = [st for st in own_nodes(fd.node) if isinstance(st, ast.Assign) and n(st.targets[0]) == "deriv"]
-    ok = len(bulk) == 1 and n(bulk[0].value).replace(" ", "") == "n[None,:]*eval_chebyu(n[None,:]-1,grid[:,None])"
-    chk.ob("R16.2", fd.where(), "bulk derivative matrix is n U_{n-1}(x_i) (rows: all grid points, columns: basis index)", ok, n(bulk[0].value) if bulk else "", key="bulk")
-    base = [st for st in own_nodes(fc.node) if isinstance(st, ast.Assign) and n(st.targets[0]) == "cheb"]
-    ok = len(base) == 1 and n(base[0].value).replace(" ", "") == "eval_chebyt(n,compactCoord)"
-    chk.ob("R16.2", fc.where(), "unrestricted basis is T_n(x)", ok, key="base")
+    chk.ob("R16.2", fd.where(), "bulk derivative matrix is n U_{n-1}(x_i) (rows: all grid points, columns: basis index)", bulk_ok,
+           str(deriv_terms.get(("pp", True))), key="bulk")
+    chk.ob("R16.2", fc.where(), "unrestricted basis is T_n(x)", okb, str(base), key="base")
     chk.floor("R16.2", 6)
 
 
-def _eval_axes(expr: ast.expr, i: int, rank: int, extra: dict | None = None):
-    env = {"np": type("NP", (), {"arange": staticmethod(lambda *a: list(range(*a))), "array": staticmethod(lambda a: a)}),
-           "i": i, "tuple": tuple, "self": type("S", (), {"rank": rank})}
-    if extra:
-        env.update(extra)
-    return eval(compile(ast.Expression(expr), "<axes>", "eval"), {"__builtins__": {}}, env)
+def _ints(v):
+    """tuple of python ints of a tuple / sympy Tuple of integers (an int for a single integer), else None"""
+    if isinstance(v, sp.Integer):
+        return int(v)
+    if isinstance(v, (tuple, list, sp.Tuple)) and all(isinstance(x, sp.Integer) for x in v):
+        return tuple(int(x) for x in v)
+    return None
 
 
 def r16_4(chk: Check):
     S = chk.src
-    sites = {}
+    C = {"dir": "pp", "ep": False, "basis": "Chebyshev"}
     for fname in ("changeBasis", "derivative"):
         fi = S.func(f"{PO}.{fname}")
         chk.touch(fi.name)
-        exps = [c for c in calls_in(fi.node, "expand_dims")]
-        sums = [c for c in calls_in(fi.node, "sum") if (dotted(c.func) or "") == "np.sum"]
-        mat = [c for c in exps if n(c.args[0]) in ("tnMatrix", "derivMatrix")]
-        coef = [c for c in exps if n(c.args[0]) in ("self.coefficients", "coeffDeriv")]
-        if len(mat) != 1 or len(coef) != 1 or len(sums) != 1:
-            raise AnchorMissing(f"{fname}: expand_dims / sum pattern not found")
         bad = []
         cases = 0
         for rank in range(1, 5):
             for i in range(rank):
                 cases += 1
-                maxes = _eval_axes(mat[0].args[1], i, rank)
+                ex = _PolyEx(S, C, rank=rank, axis=i)
+                ps = ex.run(fi, outer={"self.rank": sp.Integer(rank)})
+                sums = ex.recorded("sum")
+                exps = [r for r in ex.recorded("expand_dims") if len(r) == 2]
+                # roles: the operand expanded by rank-1 axes is the matrix (2 -> rank+1 axes), the one expanded by one axis the coefficients
+                mat = [r for r in exps if isinstance(_ints(r[1]), tuple)]
+                coef = [r for r in exps if isinstance(_ints(r[1]), int)]
+                if not mat or not coef or not sums or any(len(r) != 2 for r in sums) or len(mat) + len(coef) != len(exps):
+                    raise AnchorMissing(f"{fname}: expand_dims / sum pattern not found")
+                maxes, cax, sax = {_ints(r[1]) for r in mat}, {_ints(r[1]) for r in coef}, {_ints(r[1]) for r in sums}
+                if len(maxes) != 1 or len(cax) != 1 or len(sax) != 1 or not isinstance(next(iter(sax)), int):
+                    bad.append(f"rank {rank}, axis {i}: axes differ between the variants of the matrix: {maxes}, {cax}, {sax}")
+                    continue
+                maxes, cax, sax = next(iter(maxes)), next(iter(cax)), next(iter(sax))
                 # matrix (new, old) expanded to rank+1 dims: its own two axes are those not in maxes
                 own = [a for a in range(rank + 1) if a not in maxes]
-                cax = _eval_axes(coef[0].args[1], i, rank)
-                sax = _eval_axes(kwarg(sums[0], "axis", 1), i, rank)
                 # coefficient axes after expand at cax: old axis k -> k (k < cax) or k+1 (k >= cax)
                 old_i = i + 1 if cax <= i else i
-                if own != [i, i + 1] or cax != i or sax != i + 1 or old_i != sax or len(maxes) != rank - 1:
-                    bad.append(f"rank {rank}, axis {i}: matrix on {own}, coefficients expanded at {cax}, summed over {sax}")
+                # every contracted product is (expanded matrix) * (expanded coefficients); the matrix comes from the basis functions /
+                # derivative matrix of this axis, the coefficients are the polynomial's coefficients; the contraction becomes the new coefficients
+                src_call = "chebyshev" if fname == "changeBasis" else "derivMatrix"
+                mterm = [Extractor._unint(ex, src_call, r, {}) for r in ex.recorded(src_call)]
+                prods = [Extractor._unint(ex, "np.expand_dims", m_, {}) * Extractor._unint(ex, "np.expand_dims", c_, {}) for m_ in mat for c_ in coef]
+                roles = all(any(sp.expand(r[0] - p_) == 0 for p_ in prods) for r in sums) and len(mterm) == 1 and all(isinstance(m_[0], sp.Basic) and m_[0].has(mterm[0]) for m_ in mat) \
+                    and all(c_[0] == ex.sym("self.coefficients") for c_ in coef)
+                res = [Extractor._unint(ex, "NPSUM", r, {}) for r in sums]
+                if fname == "changeBasis":
+                    out = [_nobc(p.env.get("self.coefficients")) for p in ps]
+                    flows = all(any(o == r for o in out) for r in res) and all(o is None or o == ex.sym("self.coefficients") or o in res for o in out)
+                else:
+                    out = [r[0] for r in ex.recorded("Polynomial") if r]
+                    flows = all(any(o == r for o in out) for r in res) and all(o == ex.sym("self.coefficients") or o in res for o in out)
+                if own != [i, i + 1] or cax != i or sax != i + 1 or old_i != sax or len(maxes) != rank - 1 or not roles or not flows:
+                    bad.append(f"rank {rank}, axis {i}: matrix on {own}, coefficients expanded at {cax}, summed over {sax}"
+                               f"{'' if roles else '; the contracted product is not (matrix of ' + src_call + ') * (self.coefficients)'}"
+                               f"{'' if flows else '; the contraction does not become the new coefficients'}")
         chk.ob("R16.4", fi.where(), f"{fname}: for every rank <= 4 and axis i the matrix occupies axes (i, i+1) = (new, old), the coefficients' axis i is moved to "
                f"i+1 and contracted; all other axes are untouched ({cases} cases)", not bad, "; ".join(bad[:4]), key=f"axes|{fname}", how="finite-enumeration")
     # integrate: 1-D weights on axis i
     fi = S.func(f"{PO}.integrate")
-    exps = [c for c in calls_in(fi.node, "expand_dims")]
-    if len(exps) != 1:
-        raise AnchorMissing("integrate: expand_dims not found")
     bad = []
+    sum_ok = True
+    axp = fi.params()[1] if len(fi.params()) > 1 else None
     for rank in range(1, 5):
         for i in range(rank):
-            axes = _eval_axes(exps[0].args[1], i, rank)
-            own = [a for a in range(rank) if a not in axes]
-            if own != [i] or len(axes) != rank - 1:
-                bad.append(f"rank {rank}, axis {i}: weights on {own}")
+            ex = _PolyEx(S, C, rank=rank, axis=i)
+            ex.run(fi, outer={"self.rank": sp.Integer(rank)})
+            exps = [r for r in ex.recorded("expand_dims") if len(r) == 2]
+            if not exps:
+                raise AnchorMissing("integrate: expand_dims not found")
+            co = ex.sym("self.coefficients")
+            for r in exps:
+                axes = _ints(r[1])
+                own = [a for a in range(rank) if not isinstance(axes, tuple) or a not in axes]
+                if own != [i] or not isinstance(axes, tuple) or len(axes) != rank - 1:
+                    bad.append(f"rank {rank}, axis {i}: weights on {own}")
+            sums = ex.recorded("sum")
+            a = ex.sym(axp)
+            e_w = [Extractor._unint(ex, "np.expand_dims", r, {}) for r in exps]
+            for r in sums:
+                # the summed array is (weight) * coefficients [* the expanded quadrature weights of the integrated axis], summed over `axis`
+                okr = len(r) == 2 and (r[1] == a or _same(r[1], (a,))) and isinstance(r[0], sp.Basic) and r[0].has(co) and not sp.simplify(r[0] / co).has(co)
+                sum_ok = sum_ok and okr
+            sum_ok = sum_ok and bool(sums) and any(isinstance(r[0], sp.Basic) and any(r[0].has(w) for w in e_w) for r in sums)
     chk.ob("R16.4", fi.where(), "integrate: for every rank <= 4 the 1-D quadrature weights of axis i are broadcast along axis i only", not bad, "; ".join(bad[:4]),
            key="axes|integrate", how="finite-enumeration")
-    sm = [c for c in calls_in(fi.node, "sum") if (dotted(c.func) or "") == "np.sum"]
-    ok = len(sm) == 1 and [n(a) for a in sm[0].args] == ["integrand", "axis"]
-    chk.ob("R16.4", fi.where(), "integrate sums the weighted coefficients over exactly the requested axes", ok, key="integrate-sum")
+    chk.ob("R16.4", fi.where(), "integrate sums the weighted coefficients over exactly the requested axes", sum_ok, key="integrate-sum")
     # evaluate: pn (points, n) placed on (0, i+1) of (points, *coefficient axes)
     fi = S.func(f"{PO}.evaluate")
-    exps = [c for c in calls_in(fi.node, "expand_dims")]
-    if len(exps) != 1:
-        raise AnchorMissing("evaluate: expand_dims not found")
     bad = []
+    sum_ok = True
+    axp = fi.params()[2] if len(fi.params()) > 2 else None
     for rank in range(1, 5):
         for i in range(rank):
-            axes = _eval_axes(exps[0].args[1], i, rank)
-            own = [a for a in range(rank + 1) if a not in axes]
-            if own != [0, i + 1] or len(axes) != rank - 1:
-                bad.append(f"rank {rank}, axis {i}: basis values on {own}")
+            ex = _PolyEx(S, C, rank=rank, axis=i)
+            ex.run(fi, outer={"self.rank": sp.Integer(rank)})
+            exps = [r for r in ex.recorded("expand_dims") if len(r) == 2]
+            if not exps:
+                raise AnchorMissing("evaluate: expand_dims not found")
+            basis_vals = [Extractor._unint(ex, "chebyshev", r, {}) for r in ex.recorded("chebyshev")]
+            for r in exps:
+                axes = _ints(r[1])
+                own = [a for a in range(rank + 1) if not isinstance(axes, tuple) or a not in axes]
+                if own != [0, i + 1] or not isinstance(axes, tuple) or len(axes) != rank - 1 or r[0] not in basis_vals:
+                    bad.append(f"rank {rank}, axis {i}: basis values on {own}")
+            sums = ex.recorded("sum")
+            e_p = [Extractor._unint(ex, "np.expand_dims", r, {}) for r in exps]
+            co = ex.sym("self.coefficients")
+            for r in sums:
+                okr = len(r) == 2 and r[1] == sp.Function("tuple")(ex.sym(axp) + 1) and isinstance(r[0], sp.Basic) \
+                    and any(r[0].has(q) and not sp.simplify(r[0] / (co * q)).has(co, q) for q in e_p)
+                sum_ok = sum_ok and okr
+            sum_ok = sum_ok and bool(sums)
     chk.ob("R16.4", fi.where(), "evaluate: for every rank <= 4 the basis values (points, n) of axis i occupy axes (0, i+1) of (points, *coefficient axes)", not bad,
            "; ".join(bad[:4]), key="axes|evaluate", how="finite-enumeration")
-    sm = [c for c in calls_in(fi.node, "sum") if (dotted(c.func) or "") == "np.sum"]
-    ok = len(sm) == 1 and n(kwarg(sm[0], "axis", 1)).replace(" ", "") == "tuple(np.array(axes)+1)" and n(sm[0].args[0]).replace(" ", "") == "self.coefficients[None,...]*polynomials"
-    chk.ob("R16.4", fi.where(), "evaluate contracts coefficients with the product of basis values over the evaluated axes (shifted by the points axis)", ok, key="evaluate-sum")
+    chk.ob("R16.4", fi.where(), "evaluate contracts coefficients with the product of basis values over the evaluated axes (shifted by the points axis)", sum_ok, key="evaluate-sum")
     # derivative(): result axis gets Cardinal basis with end points
     fdv = S.func(f"{PO}.derivative")
-    txt = " ".join(n(s_) for s_ in own_nodes(fdv.node) if isinstance(s_, ast.Expr))
-    ok = "basis.append('Cardinal')" in txt.replace('"', "'") and "endpoints.append(True)" in txt
-    chk.ob("R16.4", fdv.where(), "derivative() labels the differentiated axis Cardinal with end points (the derivative matrix has rows for all grid points)", ok, key="derivative-labels")
-    dm = [c for c in calls_in(fdv.node, "derivMatrix")]
-    ok = len(dm) == 1 and [n(a) for a in dm[0].args] == ["self.basis[i]", "self.direction[i]", "self.endpoints[i]"]
-    chk.ob("R16.4", fdv.where(), "derivative() uses the derivative matrix of the axis' own (basis, direction, endpoints)", ok, key="derivative-matrix-args")
+    labels, margs = [], True
+    for b, d, ep in itertools.product(("Cardinal", "Chebyshev"), DIRS, (True, False)):
+        ex = _PolyEx(S, {"dir": d, "ep": ep, "basis": b}, rank=1, axis=0)
+        ex.run(fdv, outer={"self.rank": sp.Integer(1)})
+        dm = ex.recorded("derivMatrix")
+        margs = margs and len(dm) == 1 and len(dm[0]) == 3 and (_label(dm[0][0]), _label(dm[0][1]), dm[0][2]) == (b, d, sp.true if ep else sp.false)
+        for r in ex.recorded("Polynomial"):
+            if len(r) == 5 and _named(r[0], "NPSUM"):
+                labels.append((b, ep, [_label(x) for x in r[2]] if isinstance(r[2], tuple) else None, list(r[4]) if isinstance(r[4], tuple) else None))
+    ok = len(labels) == 12 and all(lb == ["Cardinal"] and le == [sp.true] for _, _, lb, le in labels)
+    chk.ob("R16.4", fdv.where(), "derivative() labels the differentiated axis Cardinal with end points (the derivative matrix has rows for all grid points)", ok,
+           str(labels[:3]), key="derivative-labels")
+    chk.ob("R16.4", fdv.where(), "derivative() uses the derivative matrix of the axis' own (basis, direction, endpoints)", margs, key="derivative-matrix-args")
     chk.floor("R16.4", 8)
 
 
 def rules(chk: Check) -> None:
-    sizes, dens = _grid_sizes(chk)
-    r16_1(chk, sizes)
-    r16_2(chk)
-    r16_3(chk, sizes, dens)
+    G = _grid(chk)
+    deriv_terms = r16_1(chk, G)
+    r16_2(chk, G, deriv_terms)
+    r16_3(chk, G)
     r16_4(chk)
